@@ -17,7 +17,9 @@ RULE = ("The C03 exploration engine walks the decoder's decision tree (complete 
         "more than one byte or non-ASCII.")
 FLOOR = 3000
 SHARDS = {"thorough": 16}
-ASSUMPTIONS = ["C-A (upper case), C-1, F13, M-<space> are not keys a configuration file can name (not judged)"]
+ASSUMPTIONS = ["C-1, F13, C-ab and the like are not keys a configuration file can name (recorded, not judged); C-<upper case letter> "
+               "and M-<space> may be refused or accepted, and are judged when accepted; M-<non-ASCII character> is outside "
+               "'printable characters' (the decoder has no name for ESC + a non-ASCII character)"]
 
 ENCODINGS = ("ascii", "latin-1", "utf-8")
 
@@ -30,7 +32,11 @@ def config_names():
     return names
 
 
-INVALID_CONFIG = ["x", "C-", "M-", "F", "Fx", "ctrl-a", "C-ab", "F0", "F13", "C-1", "C-A", "M- ", "  "]
+# spellings a configuration file may plausibly use for keys that exist (Ctrl-Shift-a sends the byte
+# Ctrl-a sends; Alt-space): refusing them with KeyError is fine, accepting them is fine - but an
+# accepted name must be one the decoder produces, or the binding is silently dead
+OPTIONAL_CONFIG = ["C-%s" % chr(c) for c in range(ord("A"), ord("Z") + 1)] + ["M- "]
+INVALID_CONFIG = ["x", "C-", "M-", "F", "Fx", "ctrl-a", "C-ab", "F0", "F13", "C-1", "  "]
 
 
 def shape(out):
@@ -97,7 +103,7 @@ def run_case(ctx, case):
         stream_agreement(ctx, case["encoding"], case["data"], case["chunks"])
     elif kind == "config":
         prod = producible_quick()
-        judge_config(ctx, case["name"], prod)
+        judge_config(ctx, case["name"], prod, may_reject=case.get("may_reject", False))
     elif kind == "tables":
         judge_tables(ctx)
 
@@ -119,14 +125,25 @@ def producible_quick():
 def classify_config(name, missing):
     if name == "C-i":
         return "C20:ctrl-i-is-tab"
+    if name in OPTIONAL_CONFIG:
+        return "C20:accepted-config-name-is-dead"
     return "C20:config-name-not-producible"
 
 
-def judge_config(ctx, name, producible):
+def judge_config(ctx, name, producible, may_reject=False):
     from curtsies.configfile_keynames import keymap
     case = {"kind": "config", "name": name}
+    if may_reject:
+        case["may_reject"] = True
     try:
         got = keymap[name]
+    except KeyError as ex:
+        if may_reject:
+            ctx.judge(True, case, ("C20", "config", name))
+            ctx.count("optional_config_name_rejected")
+            return
+        ctx.judge(False, case, ("C20", "config", name), "C20:config-name-rejected", "names", repr(ex))
+        return
     except Exception as ex:  # noqa
         ctx.judge(False, case, ("C20", "config", name), "C20:config-name-rejected", "names", repr(ex))
         return
@@ -176,6 +193,9 @@ def run(ctx):
         for name in config_names():
             judge_config(ctx, name, producible)
             ctx.count("config_names")
+        for name in OPTIONAL_CONFIG:
+            judge_config(ctx, name, producible, may_reject=True)
+            ctx.count("optional_config_names")
         from curtsies.configfile_keynames import keymap
         try:
             r = keymap[""]
